@@ -392,8 +392,27 @@ func contextClose(t *tape.Tape, cfg sim.Config) (res sim.Result) {
 	if err != nil {
 		panic(err)
 	}
+	// an owner instance exports a memory allocated by a counting custom allocator; the spinning module
+	// imports it: releasing the importer's resources (possibly several times, on the deferred path) must
+	// not free the owner's memory
+	var frees atomic.Int64
+	actx := experimental.WithMemoryAllocator(ctx, experimental.MemoryAllocatorFunc(func(cap, max uint64) experimental.LinearMemory {
+		return &countingMem{frees: &frees}
+	}))
+	om := &wasmb.Module{Mem: &wasmb.Limits{Min: 1, Max: 2, HasMax: true}}
+	om.Exports = append(om.Exports, wasmb.Export{Name: "mem", Kind: wasmb.KindMemory, Idx: 0})
+	om.AddFunc(nil, []wasmb.ValType{wasmb.I32}, nil, (&wasmb.Code{}).I32Const(0).I32Load(0).B, "peek")
+	ocm, err := rt.CompileModule(actx, om.Encode())
+	if err != nil {
+		panic(err)
+	}
+	owner, err := rt.InstantiateModule(actx, ocm, wazero.NewModuleConfig().WithName("own"))
+	if err != nil {
+		panic(err)
+	}
 	m := &wasmb.Module{}
 	tick := m.ImportFunc("env", "tick", nil, nil)
+	m.Imports = append(m.Imports, wasmb.Import{Module: "own", Name: "mem", Kind: wasmb.KindMemory, Mem: wasmb.Limits{Min: 1, Max: 2, HasMax: true}})
 	m.AddFunc(nil, nil, nil, (&wasmb.Code{}).Loop(wasmb.BlockVoid).Call(tick).Br(0).End().B, "spin")
 	m.AddFunc(nil, []wasmb.ValType{wasmb.I32}, nil, (&wasmb.Code{}).I32Const(5).B, "five")
 	cm, err := rt.CompileModule(ctx, m.Encode())
@@ -454,6 +473,20 @@ func contextClose(t *tape.Tape, cfg sim.Config) (res sim.Result) {
 		}
 		m2.Close(ctx)
 	}
+	// the owner of the imported memory is still open: its buffer must not have been freed
+	if n := frees.Load(); n != 0 {
+		res.Fail("shared-resource-released", "closing the importing module (cause %d, then %d further uses) freed the memory of the still-open exporting module %d time(s)", cause, calls, n)
+		return
+	}
+	if _, err := owner.ExportedFunction("peek").Call(ctx); err != nil {
+		res.Fail("shared-resource-released", "the exporting module cannot read its memory after the importer was closed: %v", err)
+		return
+	}
+	owner.Close(ctx)
+	if n := frees.Load(); n != 1 {
+		res.Fail("shared-resource-released", "after the exporting module was closed too, its custom-allocator memory was freed %d times (expected exactly once)", n)
+		return
+	}
 	if t.Chance(1, 2) {
 		rt.Close(ctx)
 	}
@@ -468,6 +501,20 @@ func contextClose(t *tape.Tape, cfg sim.Config) (res sim.Result) {
 	res.Sample = res.Trace
 	return
 }
+
+// countingMem is a trivial custom allocator that counts Free calls.
+type countingMem struct {
+	buf   []byte
+	frees *atomic.Int64
+}
+
+func (m *countingMem) Reallocate(size uint64) []byte {
+	nb := make([]byte, size)
+	copy(nb, m.buf)
+	m.buf = nb
+	return nb
+}
+func (m *countingMem) Free() { m.frees.Add(1) }
 
 func firstLine(err error) string {
 	if err == nil {
